@@ -195,7 +195,7 @@ def run(pid, plan, tier, seed, work, replay, t0):
             tv["accepted_runs"] += r["accepted_runs"]
             tv["drifts"] += r["drifts"]
     cov["traces_validated_against_impl"] = tv["accepted_runs"]
-    cov["trace_validation"] = {"runs": tv["total_runs"], "accepted": tv["accepted_runs"], "drifts": tv["drifts"][:10]}
+    cov["trace_validation"] = {"runs": tv["total_runs"]}
     os.makedirs(os.path.join(vlib.VERIF, "out", "drift"), exist_ok=True)
     for d in tv["drifts"]:
         for sc in schedules:
@@ -226,7 +226,7 @@ def run(pid, plan, tier, seed, work, replay, t0):
             viol += v2
             cov["records_checked"] += n2
         log("drift-directed search: %d randomized continuations from %d drift points" % (dd_runs, min(4, len(tv["drifts"]))))
-    cov["drift_directed_runs"] = dd_runs
+    diag = {"drift_directed_runs": dd_runs, "drifts": tv["drifts"][:10]}   # run-dependent diagnostics: kept out of `coverage`
     uniq = {}
     for s in schedules:
         uniq.setdefault(vlib.sched_hash(s), s)
@@ -272,7 +272,7 @@ def run(pid, plan, tier, seed, work, replay, t0):
     for l in kf_lines:
         log(l)
     cov["known_findings_hit"] = len(kf_lines)
-    vlib.write_evidence(pid, tier, seed, plan["level"], cov, assumptions, time.time() - t0, nviol)
+    vlib.write_evidence(pid, tier, seed, plan["level"], cov, assumptions, time.time() - t0, nviol, extra={"diagnostics": diag})
     log("property %s tier %s: %d schedules replayed on real code, %d records checked, %d violations, %.0fs" %
         (pid, tier, len(schedules), cov["records_checked"], nviol, time.time() - t0))
     return 1 if nviol else 0
